@@ -44,6 +44,9 @@ pub struct Scenario {
     pub a: f32,
     pub b: f32,
     pub n: i64,
+    /// the integer of a right-hand Time / DimensionlessInteger operand; absent (older replay files): derived from `n`
+    #[serde(default)]
+    pub n2: Option<i64>,
     pub form: Form,
 }
 
@@ -240,7 +243,7 @@ pub fn check(s: &Scenario) -> CheckResult {
     match s.form {
         Form::Bin { l, r, op, assign } => {
             let (lo, lv, lu) = virt(l, s.a, u1, s.n);
-            let (ro, rv, ru) = virt(r, s.b, u2, s.n.wrapping_mul(3).wrapping_add(7));
+            let (ro, rv, ru) = virt(r, s.b, u2, s.n2.unwrap_or(s.n.wrapping_mul(3).wrapping_add(7)));
             let additive = matches!(op, OpK::Add | OpK::Sub);
             let should_panic = additive && lu != ru;
             let got = catch(|| exec_bin(lo, ro, op, assign));
@@ -414,7 +417,7 @@ fn grid() -> Vec<(i8, i8)> {
 pub struct C01;
 impl Property for C01 {
     const ID: &'static str = "C01";
-    const RULE: &'static str = "exhaustive: all 49x49 ordered pairs of grid units x every operator form (35 Quantity/Time/DimensionlessInteger binary and assign forms that yield a Quantity, 8 bare-Unit forms, neg, abs, ==, 5 ordering forms) x 3 value pairs; 49 named constants vs a parser of their names; conversions over all 49 units. Random: units with exponents in [-60,60] (equal pairs forced 1 in 4), any finite f32 incl. subnormals/-0, i64 operands. Oracle: independent exponent arithmetic, the raw f32 operator (bitwise), panic iff additive/ordering form on differing units. Non-trivial = units differ (panic arm) or the result unit differs from both operand units, or a conversion/constant case; distinct = (unit pair, form).";
+    const RULE: &'static str = "exhaustive: all 49x49 ordered pairs of grid units x every operator form (35 Quantity/Time/DimensionlessInteger binary and assign forms that yield a Quantity, 8 bare-Unit forms, neg, abs, ==, 5 ordering forms) x 3 value pairs; 49 named constants vs a parser of their names; conversions over all 49 units. Random: units with exponents in [-60,60] (equal pairs forced 1 in 4), any finite f32 incl. subnormals/-0, i64 operands (left and right drawn separately, incl. 0, +-1, i64::MIN/MAX and integers equal to the other operand as a number). Oracle: independent exponent arithmetic, the raw f32 operator (bitwise), panic iff additive/ordering form on differing units. Non-trivial = units differ (panic arm) or the result unit differs from both operand units, or a conversion/constant case; distinct = (unit pair, form).";
     type Scenario = Scenario;
     fn strategy(_tier: Tier) -> BoxedStrategy<Scenario> {
         let forms = all_forms();
@@ -423,12 +426,15 @@ impl Property for C01 {
         // number as f32, a whole number of seconds and the same number as f32, the same f32 twice), so that differences cancel
         // to a signed zero and quotients are exactly one
         let values = prop_oneof![
-            8 => (gen::finite_f32(), gen::finite_f32(), prop_oneof![3 => any::<i64>().prop_map(|x| x >> 20), 3 => any::<i64>(), 2 => gen::tie_i64()]),
-            1 => (-1000i64..=1000).prop_map(|n| (n as f32, n as f32, n)),
-            1 => (-8i64..=8).prop_map(|k| (k as f32, k as f32, k * 1_000_000_000)),
+            6 => (gen::finite_f32(), gen::finite_f32(), prop_oneof![3 => any::<i64>().prop_map(|x| x >> 20), 3 => any::<i64>(), 2 => gen::tie_i64()], Just(None)),
+            // the right-hand integer drawn directly: any value, and the ends and the middle of the range (a zero divisor, the
+            // integer whose negation does not exist)
+            2 => (gen::finite_f32(), gen::finite_f32(), any::<i64>(), prop_oneof![2 => any::<i64>(), 1 => gen::tie_i64(), 3 => proptest::sample::select(vec![0i64, 1, -1, i64::MIN, i64::MAX, i64::MIN + 1, 1_000_000_000, -1_000_000_000])].prop_map(Some)),
+            1 => (-1000i64..=1000).prop_map(|n| (n as f32, n as f32, n, Some(n))),
+            1 => (-8i64..=8).prop_map(|k| (k as f32, k as f32, k * 1_000_000_000, Some(k * 1_000_000_000))),
         ];
         (unit(), unit(), any::<bool>(), any::<bool>(), values, proptest::sample::select(forms))
-            .prop_map(|(u1, u2, same1, same2, (a, b, n), form)| Scenario { u1, u2: if same1 && same2 { u1 } else { u2 }, a, b, n, form })
+            .prop_map(|(u1, u2, same1, same2, (a, b, n, n2), form)| Scenario { u1, u2: if same1 && same2 { u1 } else { u2 }, a, b, n, n2, form })
             .boxed()
     }
     fn cases(tier: Tier) -> u32 {
@@ -443,7 +449,7 @@ impl Property for C01 {
             for &u2 in &g {
                 for &form in &forms {
                     for &(a, b, nn) in &vals {
-                        sink(Scenario { u1, u2, a, b, n: nn, form });
+                        sink(Scenario { u1, u2, a, b, n: nn, n2: None, form });
                         n += 1;
                     }
                 }
@@ -454,14 +460,22 @@ impl Property for C01 {
         for &u in &[(0i8, 0i8), (0, 1), (1, 0), (1, -2)] {
             for &form in &forms {
                 for &(a, b, nn) in &[(3.0f32, 3.0f32, 3i64), (0.0, 0.0, 0), (-0.0, -0.0, 0), (2.0, 2.0, 2_000_000_000), (-7.0, -7.0, -7), (-1.0, -1.0, -1_000_000_000)] {
-                    sink(Scenario { u1: u, u2: u, a, b, n: nn, form });
-                    n += 1;
+                    sink(Scenario { u1: u, u2: u, a, b, n: nn, n2: None, form });
+                    sink(Scenario { u1: u, u2: u, a, b, n: nn, n2: Some(nn), form });
+                    n += 2;
+                }
+                // a right-hand integer at the ends and the middle of its range against ordinary and signed-zero left values
+                for &a in &[4.0f32, -0.0, 0.0, -2.5e-3] {
+                    for &n2 in &[0i64, i64::MIN, i64::MAX, -1, 1] {
+                        sink(Scenario { u1: u, u2: u, a, b: a, n: 5, n2: Some(n2), form });
+                        n += 1;
+                    }
                 }
             }
         }
         for &u1 in &g {
             for form in unary_forms() {
-                sink(Scenario { u1, u2: u1, a: -7.25, b: 0.0, n: 0, form });
+                sink(Scenario { u1, u2: u1, a: -7.25, b: 0.0, n: 0, n2: None, form });
                 n += 1;
             }
         }
@@ -470,7 +484,7 @@ impl Property for C01 {
         let mut seen = std::collections::HashSet::new();
         for (i, (name, _)) in cs.iter().enumerate() {
             seen.insert(parse_name(name));
-            sink(Scenario { u1: (0, 0), u2: (0, 0), a: 0.0, b: 0.0, n: 0, form: Form::Constant(i as u8) });
+            sink(Scenario { u1: (0, 0), u2: (0, 0), a: 0.0, b: 0.0, n: 0, n2: None, form: Form::Constant(i as u8) });
             n += 1;
         }
         assert_eq!(seen.len(), 49, "constant names do not cover the 7x7 grid");
